@@ -729,14 +729,15 @@ func (r *PipelineRunner) SaveToStore() {
 		WithField("component", "runner").
 		Debugf("Saving job state to data store")
 
-	r.mx.RLock()
+	// Removing expired jobs modifies the job maps: this needs the write lock
+	r.mx.Lock()
 	data := &store.PersistedData{
 		Jobs: make([]store.PersistedJob, 0, len(r.jobsByID)),
 	}
 
 	// Remove jobs whose retention period has expired
 	for _, jobsInPipeline := range r.jobsByPipeline {
-		// Make a copy of the slice before sorting to prevent data races (we only have a read lock here)
+		// Make a copy of the slice before sorting, jobs are removed from the original slice while iterating
 		sortedJobsInPipeline := make([]*PipelineJob, len(jobsInPipeline))
 		copy(sortedJobsInPipeline, jobsInPipeline)
 		pipelineJobBy(byCreationTimeDesc).Sort(sortedJobsInPipeline)
@@ -802,7 +803,7 @@ func (r *PipelineRunner) SaveToStore() {
 			LastError: helper.ErrToStrPtr(job.LastError),
 		})
 	}
-	r.mx.RUnlock()
+	r.mx.Unlock()
 
 	// We do not need to lock here, the single save loops guarantees non-concurrent saves
 
